@@ -375,6 +375,12 @@ mod imp {
             let ok = !rng.chance(err_pct);
             scripts.push(ScriptS { steps, tail: "done".into(), tail_ok: ok });
         }
+        // a panic injected at one poll of the source or of a closure future (C02: unwinding out of the driver)
+        if profile == "panic" {
+            let c = rng.below(std::cmp::min(nwork as u64, 4) + 1) as usize;
+            let at = rng.below(scripts[c].steps.len() as u64 + 1) as usize;
+            scripts[c].steps.insert(at, step("x"));
+        }
         // commands
         let mut cmds = vec![];
         let len = rng.below(10);
